@@ -1045,6 +1045,9 @@ func (ps *PeerState) ApplyCommitStepMessage(msg *CommitStepMessage) {
 	if ps.Height != msg.Height {
 		return
 	}
+	if !msg.BlockParts.IsConsistent() {
+		return // a peer-supplied bit array the gossip routines could not use safely
+	}
 
 	ps.ProposalBlockPartsHeader = msg.BlockPartsHeader
 	ps.ProposalBlockParts = msg.BlockParts
@@ -1059,6 +1062,9 @@ func (ps *PeerState) ApplyProposalPOLMessage(msg *ProposalPOLMessage) {
 	}
 	if ps.ProposalPOLRound != msg.ProposalPOLRound {
 		return
+	}
+	if !msg.ProposalPOL.IsConsistent() {
+		return // a peer-supplied bit array the gossip routines could not use safely
 	}
 
 	// TODO: Merge onto existing ps.ProposalPOL?
@@ -1086,6 +1092,9 @@ func (ps *PeerState) ApplyVoteSetBitsMessage(msg *VoteSetBitsMessage, ourVotes *
 	ps.mtx.Lock()
 	defer ps.mtx.Unlock()
 
+	if !msg.Votes.IsConsistent() {
+		return // a peer-supplied bit array the gossip routines could not use safely
+	}
 	votes := ps.getVoteBitArray(msg.Height, msg.Round, msg.Type)
 	if votes != nil {
 		if ourVotes == nil {
